@@ -2,6 +2,8 @@ package main
 
 import (
 	"flag"
+
+	"golang.org/x/tools/go/ssa"
 	"fmt"
 	"os"
 	"runtime/debug"
@@ -95,6 +97,7 @@ func runProp(p *propDef, tier, repo, verif string, seed int, variant string) (co
 	}
 	w := load(loadOpts{repo: repo})
 	r := newReport(p.id, p.level)
+	setInlinePolicy(w)
 	p.run(w, r, tier)
 	extra := map[string]interface{}{}
 	if tier == "thorough" {
@@ -111,3 +114,19 @@ func runProp(p *propDef, tier, repo, verif string, seed int, variant string) (co
 	return r.finish(finishOpts{verifDir: verif, tier: tier, seed: seed, start: start, w: w, known: known,
 		cmd: fmt.Sprintf("./bin/xcheck -prop %s -tier %s", p.id, tier), trusted: append(append([]string{}, commonTrusted...), p.trusted...), explain: p.explain, assume: p.assume, extra: extra})
 }
+
+// setInlinePolicy: helper functions the reference tree does not have are walked through.
+func setInlinePolicy(w *World) {
+	theWorld = w
+	inlineOK = func(callee *ssa.Function) bool {
+		if callee == nil || callee.Blocks == nil || !w.inModule(callee) || w.TestSupport[callee] {
+			return false
+		}
+		if callee.Parent() != nil {
+			return false // closures are analysed where they are created
+		}
+		return !knownFuncs[w.funcKey(callee)]
+	}
+}
+
+var theWorld *World
